@@ -30,21 +30,26 @@ META = {
         "Theorems in Coq 8.16 over an executable model of the memoisation plumbing (four process-wide LRU tables of "
         "capacity 128 keyed by HashArray, per-object _cache, dependents of `other`, views made by slicing, sharing of "
         "memory between results and caches, TimeBase.to_scale memo) with the numerical functions left uninterpreted: "
-        "for every operation list without Slice (cache_invisible_partial) the specification machine shows exactly what the "
-        "cache-free machine shows; item assignment and mutation of `other` are reflected; writes into results are isolated; "
-        "arguments stay untouched; one refutation per quirk; the time-scale memo has a witness but no refinement theorem.  Tied to the code on every run: histories are executed on midgard in fresh processes "
+        "for every operation list (slices = views included) the specification machine shows exactly what the cache-free "
+        "machine shows; item assignment (also through views) and mutation of `other` are reflected; writes into results are "
+        "isolated; arguments stay untouched; the same refinement for the to_scale memo and for the PosVel/PositionDelta "
+        "machine (reads = function of the current contents of the object and its other/ref_pos; raw results private); one "
+        "refutation per quirk.  Tied to the code on every run: histories are executed on midgard in fresh processes "
         "and compared inside Coq with the model, whose functions are instantiated by uncached reference evaluations."),
     "level_note": (
         "Trusted: Coq kernel + vm_compute; the hand-written model Model/C08_Cache.v (validated, not derived); the driver "
         "(history runner, reference forks, term emission).  The numerical code itself is not modelled (that is C05-C07). "
-        "PosVel and PositionDelta objects are checked against their cache-free meaning only (section PVMachine, no plumbing "
-        "model / theorems of their own; they share PosBase's cache code); PosVelDelta/Velocity* are not exercised; "
+        "for PosVel and PositionDelta objects the specification is the cache-free meaning (section PVMachine; they share "
+        "PosBase's cache code, whose plumbing is modelled for Position objects); PosVelDelta/Velocity* are not exercised; "
         "`_dependent_objs` is modelled as the inverse of `other`."),
 }
 
 THEOREMS = [
     "lru_transparent", "lru_size_le",
-    "cache_invisible_partial", "setitem_invalidates", "other_mutation_propagates", "result_write_isolated", "args_untouched",
+    "cache_invisible", "setitem_invalidates", "other_mutation_propagates", "view_write_invalidates",
+    "result_write_isolated", "args_untouched",
+    "time_cache_invisible",
+    "pv_cache_invisible", "pv_read_current", "pv_read_linked_current", "pv_set_current", "raw_result_private",
     "c08_key_ignores_shape_refuted", "c08_result_aliases_cache_refuted", "c08_arg_made_readonly_refuted",
     "c08_view_write_stale_refuted", "c08_object_cache_handout_refuted", "c08_time_cache_ignores_fmt_refuted",
 ]
